@@ -16,7 +16,7 @@ try:
     open(p, 'w').write(s)
     for pid in pids.split(','):
         r = subprocess.run(['/venv/bin/python', '-m', 'pkstatic', 'check', pid, '--repo', d], cwd='/verif', capture_output=True, text=True, timeout=300)
-        lines = [l for l in r.stdout.splitlines() if l.startswith(('  FAIL', 'ANALYSIS', 'VIOLATION', 'KNOWN'))]
+        lines = [l for l in r.stdout.splitlines() if l.startswith(('  FAIL', 'ANALYSIS'))]
         print(f'{pid}: exit={r.returncode}', *lines[:6], sep='\n   ')
         if r.returncode not in (0, 1): print(r.stdout[-600:], r.stderr[-600:])
 finally:
